@@ -713,6 +713,12 @@ def build_unit(template_path, src_dir, verus_dir):
             if req != norm(kv["req"]):
                 raise LostAnchor("%s in %s requires `%s`, this unit assumes `%s`" % (kv["fn"], kv["unit"], req, kv["req"]))
             clauses = [kv["clause"]] + ([kv["clause2"]] if kv.get("clause2") else [])
+            if kv.get("clauseH"):
+                # the static-height clause, with whatever constant the verifying unit proves (1: expression, 0: statement)
+                hm = re.search(r"r is Ok ==> hstep\(old\(self\)\.height@, final\(self\)\.height@, (\d+)\)", ens)
+                if not hm:
+                    raise LostAnchor("%s in %s no longer ensures a static-height clause" % (kv["fn"], kv["unit"]))
+                clauses.append(hm.group(0))
             for cl in clauses:
                 if norm(cl) + "," not in norm(ens) + ",":
                     raise LostAnchor("%s in %s no longer ensures `%s`" % (kv["fn"], kv["unit"], cl))
